@@ -425,6 +425,12 @@ func (s *Sim) Run() Verdict {
 			if s.live.Load() == 0 {
 				return Verdict{Kind: "finished", Steps: s.Stats.Steps, TraceHash: s.hash}
 			}
+			// Before calling it a deadlock, allow for wake-ups the snapshot cannot
+			// see (a timer in code that did not have one): wait a little and look
+			// again. Nothing in the unchanged library uses timers.
+			if !s.confirmStuck(snap) {
+				continue
+			}
 			var stuck []GoroutineInfo
 			for _, g := range snap.Others {
 				stuck = append(stuck, g)
@@ -487,6 +493,18 @@ func (s *Sim) Run() Verdict {
 			return Verdict{Kind: "stepcap", Detail: "step cap reached", Steps: st.Steps, TraceHash: s.hash}
 		}
 	}
+}
+
+// confirmStuck re-examines a would-be deadlock after a grace period.
+func (s *Sim) confirmStuck(first Snapshot) bool {
+	for i := 0; i < 3; i++ {
+		time.Sleep(100 * time.Millisecond)
+		snap := s.takeSnapshot(false)
+		if !snap.Quiesced || snap.N != first.N || s.tableLen() != 0 || s.live.Load() == 0 {
+			return false
+		}
+	}
+	return true
 }
 
 // tableCopy returns a private, sorted-later copy of the parked table.
